@@ -32,7 +32,7 @@ RULE = (
 
 PARAMS = {
     'quick': dict(full=0, dense=3, light=40, near=3, mutations=3, selfsim=4, selfsim_limit=250, table=2, table_limit=400),
-    'thorough': dict(full=8, dense=40, light=400, near=30, mutations=12, selfsim=40, selfsim_limit=2500, table=12,
+    'thorough': dict(full=8, dense=40, light=400, near=30, mutations=12, selfsim=12, selfsim_limit=1200, table=12,
                      table_limit=6000),
 }
 EXPECT = ('format(x) does not raise; N(validate(format(x))) == N(validate(x)); format(x) == format(validate(x))')
